@@ -59,6 +59,7 @@ func vfC05Run(t *testing.T, dir string, p vfC05Params, mkUp func() *vfUp, steps 
 				raw = q.Pack()
 			}
 			r := w.Ask(raw, st.Proto, vfgen.ClientAddrs[st.Client], 4000+st.Client, wire)
+			synctest.Wait() // a queued background refresh runs to completion before the side effects are read
 			if r.Msg != nil {
 				if opt := r.Msg.IsEdns0(); opt != nil {
 					for _, o := range opt.Option {
@@ -100,7 +101,7 @@ func TestVerifC05Twin(t *testing.T) {
 	defer os.RemoveAll(dir)
 	rapid.Check(t, func(rt *rapid.T) {
 		p := vfC05Params{Cookie: rapid.Bool().Draw(rt, "cookie"), NSID: rapid.Bool().Draw(rt, "nsid"), Chaos: rapid.Bool().Draw(rt, "chaos"),
-			ClientRate: rapid.SampledFrom([]int{0, 0, 0, 3, 100}).Draw(rt, "clientrate"), EntryRate: rapid.SampledFrom([]int{0, 0, 0, 2, 50}).Draw(rt, "entryrate")}
+			ClientRate: rapid.SampledFrom([]int{0, 0, 0, 3, 100}).Draw(rt, "clientrate"), EntryRate: rapid.SampledFrom([]int{0, 0, 0, 2, 50}).Draw(rt, "entryrate"), Prefetch: rapid.SampledFrom([]int{0, 0, 50, 90}).Draw(rt, "prefetch")}
 		// the upstream table is drawn once and rebuilt identically for both runs
 		proto := vfGenUpstream(rt)
 		proofZone := rapid.IntRange(0, 2).Draw(rt, "proofzone") > 0
